@@ -97,9 +97,16 @@ def temp_pass(fn: ast.FunctionDef, qual: str, known_locals: Dict[str, set], log:
                 if not (isinstance(st, (ast.Assign, ast.AnnAssign)) and st.value is not None):
                     continue
                 t = st.targets[0] if isinstance(st, ast.Assign) and len(st.targets) == 1 else (st.target if isinstance(st, ast.AnnAssign) else None)
-                if not isinstance(t, ast.Name) or t.id in known or t.id in params or binds.get(t.id) != 1 or not _pure_temp_value(st.value):
+                if not isinstance(t, ast.Name) or t.id in known or t.id in params or binds.get(t.id) != 1:
                     continue
                 nxt = blk[i + 1]
+                if not _pure_temp_value(st.value):
+                    # any value may be moved when the next statement does nothing but pass it on: `return t`, `x = t`
+                    passes_on = (isinstance(nxt, ast.Return) and isinstance(nxt.value, ast.Name) and nxt.value.id == t.id) or \
+                        (isinstance(nxt, (ast.Assign, ast.AnnAssign)) and isinstance(nxt.value, ast.Name) and nxt.value.id == t.id
+                         and all(isinstance(x, ast.Name) for x in (nxt.targets if isinstance(nxt, ast.Assign) else [nxt.target])))
+                    if not passes_on:
+                        continue
                 if isinstance(nxt, (ast.Assign, ast.AnnAssign, ast.AugAssign, ast.Expr, ast.Return)):
                     header = [nxt]
                 elif isinstance(nxt, ast.If):
